@@ -8,19 +8,21 @@ import vlib, vbuild
 PROP = "C06"
 HARNESS = os.path.join(vlib.VERIF, "harness", "c06.cc")
 PYH = os.path.join(vlib.VERIF, "harness", "c06.py")
+PYF = os.path.join(vlib.VERIF, "harness", "c06f.py")
 
 
 def build():
     R = vbuild.REPO
     return (vbuild.build_exe("c06", [HARNESS], ["tools"]),
-            vbuild.build_exe("csg_imc_solve", [R + "/csg/src/tools/csg_imc_solve.cc"], ["tools", "csg"]))
+            vbuild.build_exe("csg_imc_solve", [R + "/csg/src/tools/csg_imc_solve.cc"], ["tools", "csg"]),
+            vbuild.build_exe("csg_fmatch", [R + "/csg/src/tools/csg_fmatch.cc"], ["tools", "csg"]))
 
 
 def run(tier, seed, replay=None):
     ck = vlib.Check(PROP, tier, seed)
     ob = vlib.lean_obligations(PROP, thorough=(tier == "thorough"))
     try:
-        exe, imc = build()
+        exe, imc, fm = build()
     except vbuild.BuildError as e:
         ob["ok"] = False
         ob["failures"].append("harness / csg_imc_solve do not compile against the current source: " + str(e)[-400:])
@@ -34,6 +36,10 @@ def run(tier, seed, replay=None):
         if got:
             rc, out, err = vlib.run_harness(py, [PYH, imc, "ids"], stdin=" ".join("C06 imc " + g for g in got).encode())
             ck.feed(name, out)
+        gotf = sorted(set(re.findall(r"C06 fmatch (\d+:\d+)", text)))
+        if gotf:
+            rc, out, err = vlib.run_harness(py, [PYF, fm, "ids"], stdin=" ".join("C06 fmatch " + g for g in gotf).encode())
+            ck.feed(name + "-fmatch", out)
         kkt = "\n".join(l for l in text.split("\n") if l.startswith("C06 kkt"))
         if kkt:
             ck.feed(name + "-kkt", kkt.encode())
@@ -53,6 +59,11 @@ def run(tier, seed, replay=None):
         if rc != 0:
             ck.aborts.append({"what": "imc harness exited %d: %s" % (rc, err[-300:]), "lines": []})
         ck.feed("imc(n=%d)" % n, out)
+        nf = max(40, n // 5)
+        rc, out, err = vlib.run_harness(py, [PYF, fm, "rand", str(nf)], env={"VERIF_SEED": str(sd)})
+        if rc != 0:
+            ck.aborts.append({"what": "fmatch harness exited %d: %s" % (rc, err[-300:]), "lines": []})
+        ck.feed("fmatch(n=%d)" % nf, out)
     go(400 if tier == "quick" else 8000, seed)
     if ((not ob["ok"]) or ck.disagree) and not ck.propfail and tier == "quick":
         ck.notes.append("obligation or correspondence broken: widened search")
@@ -62,9 +73,12 @@ def run(tier, seed, replay=None):
         rule="csg_imc_solve runs on generated .gmc/.imc/.idx files: 1..8 unknowns, symmetric, non-symmetric, triangular and integer matrices, r from 1e-3 to 300, "
              "1..3 index ranges; the written tables checked against the normal equations of the file's matrix in exact arithmetic and against the exact "
              "solution; linalg_constrained_qrsolve on well-posed problems with 2..8 unknowns, 0..n-1 full-rank constraints, dyadic and generic entries: "
-             "feasibility and stationarity residuals with multipliers supplied by the harness",
+             "feasibility and stationarity residuals with multipliers supplied by the harness; csg_fmatch runs (executable) on 20-70 beads of two types plus dimers, "
+             "2-6 frames, 1-3 frames per block, constrained and plain least squares, reference forces generated exactly from natural cubic splines on the "
+             "force-matching grids: the forces recomputed from the written .force tables must reproduce every reference force",
         assumptions=["Eigen's SelfAdjointEigenSolver and HouseholderQR are external: certified per run by exact residuals (tolerance 1e-7 relative to the problem scale)",
-                     "PARTIAL: csg_fmatch (row assembly from gradients and spline basis, block averaging) is not modelled; its building blocks are covered by C07 "
-                     "(gradients), C12 (spline basis, fit constraints) and the KKT certificate here",
+                     "csg_fmatch: runs in which some grid interval receives fewer than three samples in some block are not judged (the least-squares problem is "
+                     "then not well posed); three-body, angle and dihedral force matching are not generated (their gradients: C07); square roots in the force "
+                     "recomputation are 20-digit rational approximations, forces compared to 1e-5 of the largest force",
                      "ill-posed inputs (rank-deficient constraints, zero columns, r <= 0) are not generated"],
-        trivial_tags=())
+        trivial_tags=("fmatch-skip-under-sampled",))
